@@ -228,6 +228,10 @@ impl<const H: usize> Reader<H> {
                 flushed_offset,
             });
         }
+        if payload_len < H {
+            // A payload shorter than the fixed header cannot have been written: corrupt length
+            return Err(ReadError::Crc32cMismatch { offset });
+        }
 
         // Read header + data payload
         let (header, compressed_data) = if payload_len <= OPTIMISTIC_DATA_SIZE
@@ -341,6 +345,10 @@ impl<const H: usize> Reader<H> {
                 length: RECORD_HEAD_SIZE + payload_len,
                 flushed_offset,
             });
+        }
+        if payload_len < H {
+            // A payload shorter than the fixed header cannot have been written: corrupt length
+            return Err(ReadError::Crc32cMismatch { offset });
         }
 
         let payload = self
